@@ -5,6 +5,7 @@ import (
 	"encoding/binary"
 	"fmt"
 	"io"
+	"sync"
 
 	"github.com/gokrazy/rsync/internal/rsyncos"
 )
@@ -19,6 +20,11 @@ const mplexBase = 7
 
 type MultiplexWriter struct {
 	Writer io.Writer
+
+	// mu keeps the header and the payload of a frame together: a session has
+	// more than one goroutine writing frames (the generator, and the error
+	// frame which the daemon sends as soon as the receiver has failed).
+	mu sync.Mutex
 }
 
 func (w *MultiplexWriter) Write(p []byte) (n int, err error) {
@@ -26,6 +32,8 @@ func (w *MultiplexWriter) Write(p []byte) (n int, err error) {
 }
 
 func (w *MultiplexWriter) WriteMsg(tag uint8, p []byte) (n int, err error) {
+	w.mu.Lock()
+	defer w.mu.Unlock()
 	// The frame header has only 24 bits for the payload length (and our own
 	// reader accepts at most maxMessageSize), so split larger payloads into
 	// multiple frames instead of letting the length spill into the tag byte.
